@@ -19,7 +19,8 @@ def main():
     tier, cases_file = sys.argv[1], sys.argv[2]
     data = json.load(open(cases_file))
     chk = Collector("C11", "exploration", tier)
-    from props import c02, c05, c08, c13, c16, c17
+    from props import c02, c05, c08, c13, c14, c15, c16, c17
+    import random
     quick = tier == "quick"
     jobs = []
     limb = data["limb"]
@@ -30,6 +31,18 @@ def main():
     jobs += [("ASan: API programs part %d" % i, c16.drive, (data["programs"], i, 3, [1, 2, 4, 16], [64, 1024], 11)) for i in range(3)]
     jobs += [("ASan: pointwise kernels", c13.drive_pw_a, (data["pointwise"],))]
     jobs += [("ASan: reim4 layouts", c17.drive_a, (data["reim4"],))]
+    # the convenience functions with thread-local tables, in histories that change one key component at a time; numeric conversions
+    rngd = random.Random(chk.seed * 3 + 2)
+    hists = []
+    for f in ("reim_to_znx64_simple", "cplx_to_tnx32_simple"):
+        keys = [{"f": f, "m": mm, "div": dd, "ovh": oo} for mm in (2, 3, 4) for dd in (0, 2) for oo in (0, 1, 2, 5)]
+        hists.append([dict(rngd.choice(keys)) for _ in range(300 if quick else 3000)])
+    fns = ["reim_fft_simple", "reim_ifft_simple", "reim_fftvec_mul_simple", "reim_fftvec_addmul_simple", "reim_from_znx64_simple", "cplx_fft_simple",
+           "cplx_ifft_simple", "cplx_fftvec_mul_simple", "cplx_fftvec_addmul_simple", "cplx_from_znx32_simple", "cplx_from_tnx32_simple",
+           "reim4_fftvec_mul_simple", "reim4_fftvec_addmul_simple", "reim4_from_cplx_simple", "reim4_to_cplx_simple"]
+    hists.append([{"f": rngd.choice(fns), "m": rngd.randrange(0, 7), "div": 0, "ovh": 0} for _ in range(200 if quick else 2000)])
+    jobs += [("ASan: histories of the *_simple functions", c15.drive_hist, (hists,))]
+    jobs += [("ASan: numeric conversions", c14.drive, (0, [4, 8, 16] if quick else [1, 2, 4, 8, 16, 64], True))]
     common.isolated_many(chk, jobs, timeout=1500, nproc=8)
     print(json.dumps({"violations": [[d, p] for (d, p) in chk.violations], "evaluations": chk.evals,
                       "distinct": len(chk.distinct), "known": chk.known_hits}, default=str))
